@@ -9,5 +9,6 @@ CONSTANTS
 SPECIFICATION FairSpec
 INVARIANT OutcomeCorrect
 INVARIANT StateMatchesDelivered
+INVARIANT BufferIsZerosOrDelivered
 PROPERTY Terminates
 CHECK_DEADLOCK FALSE
